@@ -16,7 +16,7 @@ PRIMS = ["bool", "char", "signed char", "unsigned char", "short", "unsigned shor
          "unsigned long", "long long", "unsigned long long", "float", "double"]
 INTLIKE = set(PRIMS[:12])
 VIS = ["published", "public", "protected", "private"]
-FILES = ["main", "cwd", "I", "S"]
+FILES = ["main", "cwd", "I", "S", "sib"]
 OPS = ["[]", "==", "<", "+", "-", "*", "+=", "()", "!=", "~", "unary-"]
 
 
@@ -42,10 +42,11 @@ def _rawsig():
 
 def _rawmember():
     vis = st.sampled_from([0, 0, 0, 1, 1, 2, 3])
-    method = st.builds(lambda v, stc, cst, virt, ovs, doc: {"m": "method", "vis": v, "static": stc, "const": cst, "virt": virt,
-                                                             "ovs": ovs, "doc": doc},
-                       vis, st.booleans(), st.booleans(), st.sampled_from([0, 0, 0, 1, 2]), st.lists(_rawsig(), min_size=1, max_size=3),
-                       st.integers(0, 3))
+    method = st.builds(lambda v, stc, cst, virt, ovs, doc, ovvis: {"m": "method", "vis": v, "static": stc, "const": cst, "virt": virt,
+                                                                    "ovs": ovs, "doc": doc, "ovvis": ovvis},
+                       vis, st.booleans(), st.booleans(), st.sampled_from([0, 0, 0, 1, 1, 2]), st.lists(_rawsig(), min_size=1, max_size=3),
+                       st.integers(0, 3), st.lists(st.sampled_from([None, None, 0, 1, 2, 3]), max_size=3))
+    override = st.builds(lambda v, pick, j: {"m": "override", "vis": v, "pick": pick, "j": j}, vis, st.integers(0, 50), st.integers(0, 5))
     ctor = st.builds(lambda v, ps, ex, form, dv: {"m": "ctor", "vis": v, "params": ps, "explicit": ex, "form": form, "dv": dv},
                      vis, st.lists(_rawtype(), max_size=3), st.booleans(), st.sampled_from([0, 0, 0, 1, 2]), st.integers(0, 1000))
     dtor = st.builds(lambda v, virt, form: {"m": "dtor", "vis": v, "virt": virt, "form": form}, st.sampled_from([0, 1, 1, 1, 2, 3]),
@@ -56,7 +57,7 @@ def _rawmember():
     seq = st.just({"m": "seq"})
     enum = st.builds(lambda v, sc, n: {"m": "enum", "vis": v, "scoped": sc, "n": n}, vis, st.booleans(), st.integers(1, 3))
     op = st.builds(lambda v, o, t: {"m": "op", "vis": v, "op": o, "t": t}, vis, st.integers(0, len(OPS) - 1), _rawtype())
-    return st.one_of(method, method, method, ctor, dtor, field, field, prop, seq, enum, op)
+    return st.one_of(method, method, method, ctor, dtor, field, field, prop, seq, enum, op, override, override, override)
 
 
 def _rawclass():
@@ -65,23 +66,50 @@ def _rawclass():
     return st.builds(lambda kw, bases, members, file, inpub, doc: {"kw": kw, "bases": bases, "members": members, "file": file,
                                                                    "inpub": inpub, "doc": doc},
                      st.integers(0, 1), st.lists(base, max_size=2), st.lists(_rawmember(), max_size=7),
-                     st.sampled_from([0, 0, 0, 0, 1, 2, 3]), st.booleans(), st.integers(0, 3))
+                     st.sampled_from([0, 0, 0, 0, 1, 2, 3, 4]), st.booleans(), st.integers(0, 3))
 
 
 def raw_libraries(max_classes=5, max_funcs=5):
     func = st.builds(lambda ovs, file, inpub, doc: {"ovs": ovs, "file": file, "inpub": inpub, "doc": doc},
-                     st.lists(_rawsig(), min_size=1, max_size=3), st.sampled_from([0, 0, 0, 1, 2, 3]), st.booleans(), st.integers(0, 3))
+                     st.lists(_rawsig(), min_size=1, max_size=3), st.sampled_from([0, 0, 0, 1, 2, 3, 4]), st.booleans(), st.integers(0, 3))
     enum = st.builds(lambda sc, n, file, inpub: {"scoped": sc, "n": n, "file": file, "inpub": inpub}, st.booleans(), st.integers(1, 4),
-                     st.sampled_from([0, 0, 0, 1, 2, 3]), st.booleans())
+                     st.sampled_from([0, 0, 0, 1, 2, 3, 4]), st.booleans())
     glob = st.builds(lambda t, c, inpub: {"t": t, "const": c, "inpub": inpub}, _rawtype(), st.booleans(), st.booleans())
     macro = st.builds(lambda k, v, file: {"k": k, "v": v, "file": file}, st.integers(0, 2), st.integers(0, 100000),
-                      st.sampled_from([0, 0, 1, 2, 3]))
-    return st.builds(lambda ns, enums, classes, funcs, globs, macros, tds: {"ns": ns, "enums": enums, "classes": classes,
-                                                                            "funcs": funcs, "globals": globs, "macros": macros,
-                                                                            "typedefs": tds},
-                     st.booleans(), st.lists(enum, max_size=3), st.lists(_rawclass(), min_size=1, max_size=max_classes),
-                     st.lists(func, max_size=max_funcs), st.lists(glob, max_size=3), st.lists(macro, max_size=3),
-                     st.lists(st.integers(0, 7), max_size=2))
+                      st.sampled_from([0, 0, 1, 2, 3, 4]))
+    plain = st.builds(lambda ns, enums, classes, funcs, globs, macros, tds: {"ns": ns, "enums": enums, "classes": classes,
+                                                                             "funcs": funcs, "globals": globs, "macros": macros,
+                                                                             "typedefs": tds},
+                      st.booleans(), st.lists(enum, max_size=3), st.lists(_rawclass(), min_size=1, max_size=max_classes),
+                      st.lists(func, max_size=max_funcs), st.lists(glob, max_size=3), st.lists(macro, max_size=3),
+                      st.lists(st.integers(0, 7), max_size=2))
+
+    def add_family(raw, vis_list, derived, inpub, acc):
+        """a 'virtual family': a base with an overloaded virtual method whose flavours have individual visibilities,
+        and derived classes overriding some flavours -- the shape the inherited-virtual rules are about"""
+        raw = dict(raw)
+        classes = list(raw["classes"])
+        bi = len(classes)
+        n_ov = len(vis_list)
+        ovs = [{"params": [{"k": "prim", "p": [6, 13, 0][i]} for i in range(j)], "ret": {"k": "prim", "p": 6}, "ndef": 0, "dv": 0} for j in range(n_ov)]
+        classes.append({"kw": 0, "bases": [], "members": [{"m": "method", "vis": vis_list[0], "static": False, "const": True, "virt": 1, "ovs": ovs,
+                                                           "doc": 0, "ovvis": [None] + vis_list[1:]},
+                                                          {"m": "dtor", "vis": 1, "virt": True, "form": 0}],
+                        "file": 0, "inpub": inpub, "doc": 0})
+        for di, (dvis, j, extra) in enumerate(derived):
+            members = [{"m": "override", "vis": dvis, "pick": 0, "j": j}]
+            if extra:
+                members.append({"m": "override", "vis": (dvis + 1) % 3, "pick": 0, "j": j + 1})
+            members.append({"m": "method", "vis": 0, "static": False, "const": True, "virt": 0, "doc": 0,
+                            "ovs": [{"params": [], "ret": {"k": "prim", "p": 6}, "ndef": 0, "dv": 0}]})
+            classes.append({"kw": 0, "bases": [{"c": bi, "acc": acc, "virt": False}], "members": members, "file": 0, "inpub": False, "doc": 0})
+        raw["classes"] = classes
+        raw["ns"] = False
+        return raw
+    fam = st.builds(add_family, plain, st.lists(st.sampled_from([0, 0, 1, 1, 2]), min_size=2, max_size=3),
+                    st.lists(st.tuples(st.sampled_from([0, 0, 0, 1]), st.integers(0, 2), st.booleans()), min_size=1, max_size=2), st.booleans(),
+                    st.sampled_from([0, 0, 0, 1]))
+    return st.one_of(plain, plain, plain, fam)
 
 
 # ---- model ------------------------------------------------------------------------------------------------
@@ -187,7 +215,7 @@ def _default_for(t, dv, lib):
     return None
 
 
-RANK = {"S": 0, "I": 1, "cwd": 2, "main": 3}
+RANK = {"S": 0, "I": 1, "sib": 2, "cwd": 3, "main": 4}
 UNRANK = {v: k for k, v in RANK.items()}
 
 
@@ -280,10 +308,12 @@ def build(raw, opts=None):
             if ci == 0:
                 break
             b = lib.classes[rb["c"] % ci]
-            if b["id"] in seen_bases or b.get("final"):
+            if b["id"] in seen_bases or b.get("final") or b.get("no_derive"):
                 continue
             seen_bases.add(b["id"])
             c["bases"].append({"c": b, "acc": ["public", "protected", "private"][rb["acc"]], "virt": bool(rb["virt"])})
+        if any(b["c"].get("abstract") for b in c["bases"]):
+            c["abstract"] = True          # conservative: never used by value
         if c["bases"]:
             lib.features.add("class.base")
         if len(c["bases"]) > 1:
@@ -313,9 +343,42 @@ def build(raw, opts=None):
                 if not e["ovs"]:
                     lib.entities.remove(e)
                     continue
+                ovvis = rm.get("ovvis") or []
+                for j, ov in enumerate(e["ovs"]):
+                    ov["vis"] = VIS[ovvis[j]] if j > 0 and j < len(ovvis) and ovvis[j] is not None else e["vis"]
+                if any(ov["vis"] != e["vis"] for ov in e["ovs"]):
+                    lib.features.add("vis.per_overload")
                 c["members"].append(e)
                 if virt == "pure":
                     c["abstract"] = True
+            elif m == "override":
+                cands = []
+                seen_b = set()
+
+                def collect(k):
+                    for b in k["bases"]:
+                        if b["c"]["id"] in seen_b:
+                            continue
+                        seen_b.add(b["c"]["id"])
+                        for x in b["c"]["members"]:
+                            if x["kind"] == "method" and x.get("virt") and not x.get("overrides") and not x.get("op"):
+                                cands.append(x)
+                        collect(b["c"])
+                collect(c)
+                if not cands:
+                    continue
+                base_m = cands[rm["pick"] % len(cands)]
+                j = rm["j"] % len(base_m["ovs"])
+                if any(x["kind"] == "method" and x.get("overrides") == (base_m["id"], j) for x in c["members"]):
+                    continue
+                e = lib.ent(kind="method", cls=c, vis=VIS[rm["vis"]], static=False, const=base_m.get("const", False), virt="virtual",
+                            file=c["file"], doc=0, overrides=(base_m["id"], j), base_method=base_m)
+                e["name"] = base_m["name"]
+                bov = base_m["ovs"][j]
+                e["ovs"] = [{"ov": 0, "params": list(bov["params"]), "pnames": list(bov["pnames"]), "defaults": [None] * len(bov["params"]),
+                             "ret": bov["ret"], "vis": e["vis"]}]
+                c["members"].append(e)
+                lib.features.add("class.override")
             elif m == "ctor":
                 params = [rtype(p, ci, own=c) for p in rm["params"]]
                 # a by-value parameter of the class itself is ill-formed; a sole parameter of the class is a copy ctor
@@ -338,6 +401,8 @@ def build(raw, opts=None):
                 e = lib.ent(kind="dtor", cls=c, vis=VIS[rm["vis"]], virt=rm["virt"], form=["user", "default"][rm["form"]], file=c["file"])
                 e["name"] = "~" + c["name"]
                 c["members"].append(e)
+                if e["vis"] == "private":
+                    c["no_derive"] = True        # a class with a private destructor cannot be a base
             elif m == "field":
                 t = rtype(rm["t"], ci - 1 if ci else -1)
                 if t.kind == "obj" and t.mode in (1, 2):
@@ -346,7 +411,7 @@ def build(raw, opts=None):
                     t = Type("str", mode=0)
                 if t.kind == "obj" and t.mode == 0 and (t.ref is c or t.ref.get("abstract") or lib.classes.index(t.ref) >= ci):
                     t = Type("obj", mode=3, ref=t.ref)
-                e = lib.ent(kind="field", cls=c, vis=VIS[rm["vis"]], t=t, static=rm["static"], const=rm["const"] and rm["static"] and t.kind == "prim",
+                e = lib.ent(kind="field", cls=c, vis=VIS[rm["vis"]], t=t, static=rm["static"], const=rm["const"] and rm["static"] and t.kind == "prim" and t.name in INTLIKE,
                             file=c["file"])
                 e["name"] = "f%d_data" % e["id"]
                 c["members"].append(e)
@@ -576,6 +641,10 @@ def _render(lib, opts):
                 lines.append("  enum %s%s { %s };" % ("class " if m["scoped"] else "", m["name"], vals))
             elif k == "method":
                 for ov in m["ovs"]:
+                    ovis = ov.get("vis", vis)
+                    if ovis != cur:
+                        lines.append({"published": "PUBLISHED:", "public": "public:", "protected": "protected:", "private": "private:"}[ovis])
+                        cur = ovis
                     if ov["ov"] == 0:
                         _doc(m, lines, "  ")
                     pre_ = ("static " if m.get("static") else "") + ("virtual " if m.get("virt") else "")
@@ -630,8 +699,8 @@ def _render(lib, opts):
     files = {}
     # order of inclusion: S, I, cwd headers are included by the main header
     inc_lines = []
-    names = {"cwd": "l_cwd.h", "I": "l_inc.h", "S": "l_sys.h"}
-    for key in ("S", "I", "cwd"):
+    names = {"cwd": "l_cwd.h", "I": "l_inc.h", "S": "l_sys.h", "sib": "l_sib.h"}
+    for key in ("S", "I", "sib", "cwd"):
         if per_file[key]:
             if key == "S":
                 inc_lines.append("#include <%s>" % names[key])
@@ -646,7 +715,12 @@ def _render(lib, opts):
     def body(key):
         return "\n".join(per_file[key])
 
-    files["l.h"] = "#ifndef L_H\n#define L_H\n#include <l_common.h>\n" + "\n".join(inc_lines) + "\n" + body("main") + "\n#endif\n"
+    # when something lives in a sibling header, the command-line header is given with a directory component
+    # (pkg/l.h) and the sibling is found through the includer's directory, not through the working directory
+    main = "pkg/l.h" if per_file["sib"] else "l.h"
+    files[main] = "#ifndef L_H\n#define L_H\n#include <l_common.h>\n" + "\n".join(inc_lines) + "\n" + body("main") + "\n#endif\n"
+    if per_file["sib"]:
+        files["pkg/l_sib.h"] = "#ifndef L_SIB_H\n#define L_SIB_H\n#include <l_common.h>\n" + body("sib") + "\n#endif\n"
     if per_file["cwd"]:
         files["l_cwd.h"] = "#ifndef L_CWD_H\n#define L_CWD_H\n#include <l_common.h>\n" + body("cwd") + "\n#endif\n"
     if per_file["I"]:
@@ -654,6 +728,7 @@ def _render(lib, opts):
     if per_file["S"]:
         files["sysdir/l_sys.h"] = "#ifndef L_SYS_H\n#define L_SYS_H\n#include <l_common.h>\n" + body("S") + "\n#endif\n"
     lib.files = files
-    lib.cmd_headers = ["l.h"]
+    lib.main = main
+    lib.cmd_headers = [main]
     lib.search = ["-Iincdir", "-Ssysdir"]
-    lib.gxx_inc = ["-I", ".", "-I", "incdir", "-I", "sysdir"]
+    lib.gxx_inc = ["-I", ".", "-I", "incdir", "-I", "sysdir", "-I", "pkg"]
